@@ -124,6 +124,43 @@ add(["C08", "C06", "C07"], "c08_text_string_le4", "candid", "de_prim",
 add(["C08", "C06", "C07"], "c08_unit", "candid", "de_prim", "0..=2 bytes x 17 wire prims x symbolic quotas",
     "() target: Ok => wire null, nothing consumed, cost >= 1 (zero-sized values are not free)", est_s=40)
 
+# ---------------------------------------------------------------------------
+# C15
+HASH_WHAT = ("candid::idl_hash(s) == candid_derive's idl_hash(s) (source slice extracted from /repo at build time) == the "
+             "spec formula (Horner fold in u64 with explicit mod 2^32) for every valid UTF-8 string inside the bound")
+add("C15", "c15_hash_two_copies_le5", "ext", "c15_hash", "all valid UTF-8 strings of 0..=5 bytes (symbolic length)", HASH_WHAT,
+    est_s=120)
+add("C15", "c15_hash_two_copies_le8", "ext", "c15_hash", "all valid UTF-8 strings of 0..=8 bytes (symbolic length)", HASH_WHAT,
+    quick=False, est_s=600, cap_s=3600)
+LABEL_WHAT = ("a == b <=> get_id equal; cmp and partial_cmp are the id ordering; equal labels hash equally (recording "
+              "Hasher); Named(s).get_id() == spec hash; Id(hash(s)) == Named(s)")
+for n, d, q in (("c15_label_n2_id", "Named(2 symbolic ASCII bytes) vs Id(any u32)", True),
+                ("c15_label_n3_unnamed", "Named(3 symbolic ASCII bytes) vs Unnamed(any u32)", False),
+                ("c15_label_n2_n2", "Named(2 bytes) vs Named(2 bytes)", True),
+                ("c15_label_n1_n2", "Named(1 byte) vs Named(2 bytes)", True),
+                ("c15_label_id_unnamed", "Id(any u32) vs Unnamed(any u32)", True)):
+    add("C15", n, "ext", "c15_hash", d, LABEL_WHAT, quick=q, est_s=200, cap_s=2400)
+for n, d in (("c15_check_unique_n2_id_u", "[Named(2 bytes), Id(any), Unnamed(any)] sorted by id"),
+             ("c15_check_unique_id_n1_n2", "[Id(any), Named(1 byte), Named(2 bytes)] sorted by id")):
+    add("C15", n, "ext", "c15_hash", d,
+        "utils::check_unique returns Err exactly when two neighbours have equal ids (incl. a name colliding with a numeric id)",
+        est_s=200, cap_s=2400)
+
+# ---------------------------------------------------------------------------
+# C16
+CRC_STUB = ["crc32fast::Hasher::internal_new_specialized"]
+for n in (3, 6):
+    add("C16", f"c16_crc_ref_len{n}", "ext", "c16_principal", f"all {n}-byte inputs",
+        "crc32fast::hash (baseline table implementation) == bitwise CRC-32 from the definition", est_s=60, stubs=CRC_STUB,
+        quick=(n == 3))
+for n in (0, 1, 2, 3, 4, 5, 6, 9, 10, 29):
+    add("C16", f"c16_display_len{n}", "ext", "c16_principal", f"all principals of exactly {n} bytes",
+        "<Principal as Display>::fmt on a fixed sink == reference text: lower-case RFC4648 base32 of CRC32(bytes) big-endian ++ "
+        "bytes, '-' after every 5th character and never last (reference base32 and bitwise CRC written from the spec)",
+        quick=n in (0, 1, 4, 5, 6), est_s=120, cap_s=3600, stubs=CRC_STUB)
+add("C16", "c16_ctor_len", "ext", "c16_principal", "all slices of symbolic length 0..=40",
+    "try_from_slice is Ok exactly for length <= 29 and stores exactly the input bytes and length", est_s=120)
+
 MEMCMP = ["--unwindset", "memcmp.0:40"]
 PRIMS = ["null", "bool", "nat", "int", "nat8", "nat16", "nat32", "nat64", "int8", "int16", "int32", "int64", "f32", "f64",
          "text", "reserved", "empty"]
@@ -152,6 +189,12 @@ for n, d in (("c08_opt_u8_wo_text_n2", "expected opt nat8, wire opt text, 2 valu
         cbmc_args=MEMCMP)
 
 OUTSIDE = {
+    "C16": "the parsing direction (Principal::from_text, round trip, 'every accepted text is canonical'): did not finish "
+           "symbolic execution within 20 min in two variants; the pclmulqdq CRC path (baseline verified instead); serde "
+           "impls; the wire cap of 29 bytes (binread reader); payload lengths not instantiated",
+    "C15": "names longer than the byte bound; the derive macro's compile-time sort and the record!/variant! macros (macro "
+           "expansion is not symbolically executable; the functions they call are covered); the text parser's and the binary "
+           "header's duplicate checks (lexer/parser/binread unreachable)",
     "C09": "LEB strings longer than the per-harness byte bound; num-bigint's own arithmetic (boundary stubbed in the "
            "Nat/Int harnesses); bignum values beyond the stated digit counts",
 }
